@@ -167,7 +167,58 @@ def _uf_optional_dropped():
     UserFunction.partially_evaluate = pe
 
 
+def _pt_slices_off():
+    from torchphysics.problem.spaces.points import Points
+
+    def _variable_slices(self):
+        start, slices = 0, {}
+        for i, v in enumerate(self.space):
+            stop = start + self.space[v]
+            slices[v] = slice(start + (1 if i == 2 else 0), stop + (1 if i == 2 else 0), None)   # third group shifted
+            start += self.space[v]
+        return slices
+    Points._variable_slices = property(_variable_slices)
+
+
+def _pt_join_order():
+    import torch
+    from torchphysics.problem.spaces.points import Points
+
+    def join(self, other):
+        if self.isempty:
+            return other
+        if other.isempty:
+            return self
+        assert self.space.keys().isdisjoint(other.space)
+        return Points(torch.cat([self._t, other._t], dim=-1), other.space * self.space)
+    Points.join = join
+
+
+def _pt_repeat_interleave():
+    import torch
+    from torchphysics.problem.spaces.points import Points
+    Points.repeat = lambda self, *n: Points(torch.repeat_interleave(self._t, n[0], dim=0), self.space)
+
+
+def _pt_eq_unordered():
+    import torch
+    from torchphysics.problem.spaces.points import Points
+    Points.__eq__ = lambda self, other: set(self.space.keys()) == set(other.space.keys()) and self._t.shape == other._t.shape and bool(torch.equal(self._t, other._t))
+
+
+def _sp_prod_nomerge():
+    from torchphysics.problem.spaces.space import Space
+
+    def mul(self, other):
+        d = dict(self)
+        d.update(dict(other))          # equal names overwritten instead of added
+        return Space(d)
+    Space.__mul__ = mul
+
+
 REGISTRY = {
+    "pt_slices_off": _pt_slices_off, "pt_join_order": _pt_join_order, "pt_repeat_interleave": _pt_repeat_interleave,
+    "pt_eq_unordered": _pt_eq_unordered, "sp_prod_nomerge": _sp_prod_nomerge,
     "uf_defaults_head": _uf_defaults_head, "uf_pe_nocopy": _uf_pe_nocopy, "uf_positional": _uf_positional,
     "uf_pe_forgets_defaults": _uf_optional_dropped,
     "static_le": _static_le, "static_restatic_bonus": _static_nocount_restatic,
@@ -175,6 +226,7 @@ REGISTRY = {
     "dl_target_perm": _dl_target_perm, "dl_len_floor": _dl_len_floor, "dl_agg_global_mean": _dl_agg_sum,
 }
 BY_PROPERTY = {
+    "C12": ["pt_slices_off", "pt_join_order", "pt_repeat_interleave", "pt_eq_unordered", "sp_prod_nomerge"],
     "C13": ["uf_defaults_head", "uf_pe_nocopy", "uf_positional", "uf_pe_forgets_defaults"],
     "C15": ["static_le", "static_restatic_bonus", "adaptive_le", "adaptive_newonly"],
     "C16": ["dl_target_perm", "dl_len_floor", "dl_agg_global_mean"],
